@@ -27,8 +27,8 @@ WORKERS = {"quick": 14, "thorough": 16}
 DRV = ["h5", "ih5", "ih5mf"]
 
 
-def user_view(mc, rng_names):
-    dump, probes = E.full_dump(mc, ["/zz"])
+def user_view(mc, rng_names, full=True):
+    dump, probes = E.full_dump(mc, ["/zz"], None if full else [])
     meta = {}
     for p in dump:
         node = mc if p == "/" else mc[p]
@@ -85,7 +85,7 @@ def run_history(acc, d, seed, nops, ops=None, record=True):
             views = {}
             for drv, s in subs.items():
                 try:
-                    views[drv] = user_view(s.mc, qs)
+                    views[drv] = user_view(s.mc, qs, full=(step % 3 == 0 or step == n - 1))
                 except Exception as e:
                     mm = ("view-unreadable:" + drv, f"after {op}: reading the user view on {drv} raised {type(e).__name__}: {e}")
                     break
@@ -142,7 +142,7 @@ def check_case(acc, case):
 
 
 def units(tier, seed):
-    n = 180 if tier == "quick" else 2400
+    n = 150 if tier == "quick" else 2400
     return [{"seed": seed * 30011 + i, "n": 6} for i in range(0, n, 6)]
 
 
